@@ -1,5 +1,5 @@
 HARNESSES = {
-    'PaletteListing': dict(split={'n': 2, 'format': 4}, quick=dict(params={'N': 2}), thorough=dict(params={'N': 4}, split={'n': 4, 'format': 4})),
+    'PaletteListing': dict(split={'n': 4, 'format': 4}, quick=dict(params={'N': 4}), thorough=dict(params={'N': 16}, split={'n': 16, 'format': 4})),
     'ArcListing': dict(split={'width': 3, 'rel': 2}),
     'Listing': dict(split={'op': 16}, quick=dict(params={'L': 5}), thorough=dict(params={'L': 7})),
     'Text': dict(split={'op': 16, 'prior': 2}, quick=dict(params={'L': 4, 'P': 1}), thorough=dict(params={'L': 5, 'P': 1})),
@@ -7,7 +7,7 @@ HARNESSES = {
 }
 
 BOUNDS = {
-    'PaletteListing': 'magic, one suggested-palette chunk with n colours (quick 1..2, thorough 1..4) in each of the four forms, arbitrary colour bytes',
+    'PaletteListing': 'magic, one suggested-palette chunk with n colours (quick 1..4, thorough 1..16) in each of the four forms, arbitrary colour bytes',
     'ArcListing': 'StartPath, one arc (absolute or relative) with arbitrary 1-byte operands and a flags natural of any width, end path',
     'Listing': 'magic, empty metadata, L arbitrary instruction bytes (quick 5, thorough 7)',
     'Text': 'the text returned by Disassemble itself on magic, empty metadata, L arbitrary instruction bytes (quick 4, thorough 5), alone or after an earlier Disassemble of magic, empty metadata and one arbitrary byte (accepted or rejected); bytes.Buffer modelled with content, fmt.Fprintf appends the format string verbatim, sync.Pool hands back the last Put object',
